@@ -17,6 +17,7 @@ import (
 	"github.com/protobom/protobom/pkg/sbom"
 	"github.com/protobom/protobom/pkg/storage"
 	verifsim "github.com/protobom/protobom/pkg/verifsim"
+	"github.com/protobom/protobom/pkg/verifsim/simos"
 	"github.com/protobom/protobom/pkg/writer"
 
 	"verif/internal/core"
@@ -127,7 +128,7 @@ func genC17(verifSeed int64, tier string, idx int) *core.Scenario {
 	allFmts := append(append([]string{}, builtinUniverse...), fmtPrivA, fmtPrivB)
 	tags := []string{"fakeA", "fakeB", "fakeC"}
 	// swarm: per run a subset of operation kinds is enabled
-	kinds := []string{"RNew", "WNew", "RReg", "RUnreg", "RGet", "WReg", "WUnreg", "WGet", "Sniff", "Parse", "Write"}
+	kinds := []string{"RNew", "WNew", "RReg", "RUnreg", "RGet", "WReg", "WUnreg", "WGet", "Sniff", "Parse", "Write", "SniffFile", "ParseFile", "WriteFile"}
 	weights := make([]int, len(kinds))
 	for i := range weights {
 		if r.Intn(3) != 0 {
@@ -197,14 +198,14 @@ func genC17(verifSeed int64, tier string, idx int) *core.Scenario {
 				op.F, op.T = f, tags[r.Intn(len(tags))]
 			case "RUnreg", "WUnreg", "RGet", "WGet":
 				op.F = f
-			case "Sniff":
+			case "Sniff", "SniffFile":
 				op.S = t
-			case "Parse":
+			case "Parse", "ParseFile":
 				op.S = t
 				if r.Intn(2) == 0 {
 					op.F = f
 				}
-			case "Write":
+			case "Write", "WriteFile":
 				op.D, op.F, op.I = t, f, r.Intn(5)
 			}
 			ops = append(ops, op)
@@ -248,6 +249,7 @@ type c17env struct {
 	rPtr      map[native.Unserializer]string
 	initR     map[string]string // initial registries: format -> tag
 	initW     map[string]string
+	disk      *simos.Disk
 }
 
 func sniffOutcome(f formats.Format, err error) string {
@@ -430,6 +432,17 @@ func execC17(sc *core.Scenario) *core.Result {
 		writer.New()
 	}
 
+	// the file entry points (ParseFile, SniffFile, WriteFile) work on a simulated disk
+	disk := simos.NewDisk(1000)
+	disk.Quiet = true
+	for i, b := range env.streams {
+		disk.Put(fmt.Sprintf("/in/s%d", i), b, 0o644, 1000)
+	}
+	disk.PutDir("/out", 0o755, 1000)
+	env.disk = disk
+	simos.Mount(disk)
+	defer simos.Mount(nil)
+
 	// ---- concurrent phase ----
 	recs := mkRecs(sp.Tasks)
 	core.RaceMark()
@@ -583,6 +596,36 @@ func (env *c17env) mkOp(rec *opRec) func() string {
 			d, err := r.ParseStreamWithOptions(bytes.NewReader(b), &reader.Options{Format: formats.Format(op.F), UnserializeOptions: &native.UnserializeOptions{}})
 			return parseOutcome(d, err)
 		}
+	case "SniffFile":
+		path := fmt.Sprintf("/in/s%d", op.S)
+		return func() string {
+			f, err := (&formats.Sniffer{}).SniffFile(path)
+			return sniffOutcome(f, err)
+		}
+	case "ParseFile":
+		path := fmt.Sprintf("/in/s%d", op.S)
+		return func() string {
+			r := reader.New()
+			if op.F == "" {
+				d, err := r.ParseFile(path)
+				return parseOutcome(d, err)
+			}
+			d, err := r.ParseFileWithOptions(path, &reader.Options{Format: formats.Format(op.F), UnserializeOptions: &native.UnserializeOptions{}})
+			return parseOutcome(d, err)
+		}
+	case "WriteFile":
+		d := env.docs[op.D]
+		path := fmt.Sprintf("/out/t%d_%d.json", rec.Task, rec.Index)
+		return func() string {
+			w := writer.New()
+			err := w.WriteFileWithOptions(d, path, &writer.Options{Format: formats.Format(op.F),
+				RenderOptions: &native.RenderOptions{Indent: op.I}, SerializeOptions: &native.SerializeOptions{}})
+			s := &sink{}
+			if data, _, _, ok := env.disk.Lookup(path); ok {
+				s.Write(data)
+			}
+			return writeOutcome(s, err)
+		}
 	case "Write":
 		d := env.docs[op.D]
 		return func() string {
@@ -663,6 +706,14 @@ func (env *c17env) soloWriteOf(tag string, d, indent int) string {
 
 // step applies op to the state and says whether out is what a sequential execution returns.
 func (env *c17env) step(st regState, op Op, out string) (bool, regState) {
+	switch op.K { // the file entry points are the stream entry points behind an open/create
+	case "SniffFile":
+		op.K = "Sniff"
+	case "ParseFile":
+		op.K = "Parse"
+	case "WriteFile":
+		op.K = "Write"
+	}
 	switch op.K {
 	case "RNew", "WNew":
 		return true, st
@@ -818,7 +869,7 @@ func (env *c17env) explainIllegal(recs [][]*opRec) (kind, detail string) {
 
 func (env *c17env) candidateStates(recs [][]*opRec, op Op) []regState {
 	f := op.F
-	if op.K == "Parse" && f == "" {
+	if (op.K == "Parse" || op.K == "ParseFile") && f == "" {
 		f = strings.TrimPrefix(env.soloSniff[op.S], "fmt:")
 	}
 	tagsR := map[string]bool{}
